@@ -926,9 +926,72 @@ impl Sim {
                     ),
                 ));
             }
+            // parameterised form: the bound values of the accepted cells appear as one contiguous
+            // run, in call order
+            if let InsSrc::Rows(rows) = &im.source {
+                let mut want: Vec<String> = Vec::new();
+                let mut ok_cells = true;
+                'rows: for r in rows {
+                    for c in r {
+                        match cell_params(c, b) {
+                            Some(v) => want.extend(v),
+                            None => {
+                                ok_cells = false;
+                                break 'rows;
+                            }
+                        }
+                    }
+                }
+                let got = {
+                    let a = self.arena.borrow();
+                    match a.get(h).unwrap() {
+                        Stmt::Insert(i) => guarded(|| build_values(i, b)).ok(),
+                        _ => None,
+                    }
+                };
+                if let (true, Some(got)) = (ok_cells, got) {
+                    self.stats.check("c10.params");
+                    let found = want.is_empty()
+                        || got.windows(want.len()).any(|w| w == want.as_slice());
+                    if !found {
+                        return Err(self.viol(
+                            "c10.render",
+                            format!(
+                                "{:?}: bound parameters {:?} do not contain the accepted cells' values in call order {:?}",
+                                b, got, want
+                            ),
+                        ));
+                    }
+                }
+            }
         }
         Ok(())
     }
+}
+
+fn values_dbg(v: &sea_query::Values) -> Vec<String> {
+    v.0.iter().map(|x| format!("{:?}", x)).collect()
+}
+
+fn build_values(i: &sea_query::InsertStatement, b: Backend) -> Vec<String> {
+    match b {
+        Backend::Mysql => values_dbg(&i.build(sea_query::MysqlQueryBuilder).1),
+        Backend::Pg => values_dbg(&i.build(sea_query::PostgresQueryBuilder).1),
+        Backend::Sqlite => values_dbg(&i.build(sea_query::SqliteQueryBuilder).1),
+    }
+}
+
+fn cell_params(e: &ExprSpec, b: Backend) -> Option<Vec<String>> {
+    let mut cx = Ctx::oracle();
+    let expr = guarded(|| mat_expr(e, &mut cx)).ok()?;
+    let mut q = SelectStatement::new();
+    q.expr(expr);
+    guarded(|| match b {
+        Backend::Mysql => values_dbg(&q.build(sea_query::MysqlQueryBuilder).1),
+        Backend::Pg => values_dbg(&q.build(sea_query::PostgresQueryBuilder).1),
+        Backend::Sqlite => values_dbg(&q.build(sea_query::SqliteQueryBuilder).1),
+    })
+    .ok()
 }
 
 pub fn ctor_refs(c: &Ctor) -> Vec<(HandleId, SubMode)> {
